@@ -113,6 +113,7 @@ def check(repo, tier="quick"):
         "site for each of the 23 structure rules, language of each level ordering pattern under the extracted automaton "
         "construction, and must-pass-through of the bookkeeping updates the rules rely on."
     )
+    res.rule("C01.h", "bug patterns with zero expected instances in this property's modules: swapped same-named arguments, lower-bound guard followed by a decrement of the guarded value, presence of a dictionary entry decided by truthiness")
     res.rule("C01.a", "every state read made by a structure check is definitely assigned on every path (StateFlow)")
     res.rule("C01.b", "axiom A1 side conditions: sequence header first, end of sequence last")
     res.rule("C01.c", "repeated sequence header is recorded around all of its reads and compared byte for byte")
@@ -131,6 +132,10 @@ def check(repo, tier="quick"):
     rule_f(repo, res)
     rule_g(repo, res, sf)
     res.floor("C01.g", len(STRUCTURE_EXCEPTIONS))
+    from .. import lints as _lints
+
+    _lints.rule(repo, res, "C01.h", ['decoder.stream', 'decoder.fragment_syntax', 'decoder.assertions', 'decoder.sequence_header', 'decoder.picture_syntax', 'decoder.transform_data_syntax', 'decoder.io', 'pseudocode.state'])
+    res.floor("C01.h", 9)
     res.floor("C01.a", 40)
     res.floor("C01.b", 6)
     res.floor("C01.c", 4)
